@@ -90,6 +90,7 @@ struct Stats
     std::vector<QJsonValue> trivialSamples;
     std::string failMessage;
     long failures = 0;
+    long long firstFailureMs = 0; // steady clock, set when the first failing case of the run is recorded
 };
 
 inline Stats &stats()
@@ -141,6 +142,8 @@ inline void failCase(const QJsonObject &caseObj, const std::string &why)
 {
     auto &s = stats();
     s.failures++;
+    if (s.firstFailureMs == 0)
+        s.firstFailureMs = std::chrono::duration_cast<std::chrono::milliseconds>(std::chrono::steady_clock::now().time_since_epoch()).count();
     s.failMessage = why;
     QJsonObject o;
     o["property"] = QString::fromStdString(prop());
@@ -244,6 +247,16 @@ inline void startBudgetWatchdog()
             const long el = long(std::chrono::duration_cast<std::chrono::seconds>(std::chrono::steady_clock::now() - t0).count());
             const bool timeUp = budget > 0 && el >= budget;
             const bool memUp = maxRss > 0 && rssMb() > maxRss;
+            // a failing case has been recorded: rapidcheck is shrinking it. The smallest failing case so far is on disk; shrinking
+            // gets 150 s (or whatever is left of the budget), then the run ends as FALSIFIED - never as "held".
+            const long long nowMs = std::chrono::duration_cast<std::chrono::milliseconds>(std::chrono::steady_clock::now().time_since_epoch()).count();
+            const long shrinkLimit = atol(envOr("VERIF_SHRINK_S", "150"));
+            if (stats().failures > 0 && (timeUp || memUp || nowMs - stats().firstFailureMs > shrinkLimit * 1000L)) {
+                count("shrinking_cut_short");
+                dumpStats(false);
+                fprintf(stderr, "Falsifiable (shrinking cut short after %ld candidate cases): %s\n", stats().failures, stats().failMessage.c_str());
+                _exit(1);
+            }
             if (!timeUp && !memUp) continue;
             count(timeUp ? "time_budget_exhausted" : "memory_budget_exhausted");
             dumpStats(true);
